@@ -21,7 +21,11 @@ mod c11;
 mod c12;
 mod c13;
 mod c14;
+mod c15;
 mod c16;
+mod c17;
+mod c18;
+mod c19;
 mod gen_recipe;
 mod image;
 mod inputs;
@@ -56,7 +60,11 @@ fn dispatch(id: &str) -> Option<(fn(Tier) -> i32, ReplayFn)> {
         "C12" => (c12::run, |_p, j| c12::replay(j)),
         "C13" => (c13::run, c13::replay),
         "C14" => (c14::run, c14::replay),
+        "C15" => (c15::run, c15::replay),
         "C16" => (c16::run, c16::replay),
+        "C17" => (c17::run, c17::replay),
+        "C18" => (c18::run, c18::replay),
+        "C19" => (c19::run, c19::replay),
         _ => return None,
     })
 }
@@ -74,6 +82,9 @@ fn main() {
     };
     *HANG_PROPERTY.lock().unwrap() = id.clone();
     HANG_IS_VIOLATION.store(id == "C03", std::sync::atomic::Ordering::Relaxed);
+    if id == "C18" && args[2] == "--digest" {
+        std::process::exit(c18::digest_main(&args));
+    }
     match args[2].as_str() {
         "quick" => std::process::exit(run_fn(Tier::Quick)),
         "thorough" => std::process::exit(run_fn(Tier::Thorough)),
